@@ -396,6 +396,22 @@ static void walk(asn_TYPE_descriptor_t *td, void *sptr, struct xf *x) {
         for(j = 0; j < list->count; j++) walk(td->elements[0].type, list->array[j], x);
         break;
     }
+    case K_NREAL: {
+        /* a NaN with the other sign bit is the same abstract value NOT-A-NUMBER */
+        const asn_NativeReal_specifics_t *ns = td->specifics;
+        if(!strcmp(x->kind, "nansign")) {
+            if(ns && ns->float_size == sizeof(float)) {
+                float f; uint32_t u;
+                memcpy(&f, sptr, sizeof(f));
+                if(f != f && xf_take(x)) { memcpy(&u, &f, sizeof(u)); u ^= 0x80000000u; memcpy(sptr, &u, sizeof(u)); }
+            } else {
+                double d; uint64_t u;
+                memcpy(&d, sptr, sizeof(d));
+                if(d != d && xf_take(x)) { memcpy(&u, &d, sizeof(u)); u ^= 0x8000000000000000ull; memcpy(sptr, &u, sizeof(u)); }
+            }
+        }
+        break;
+    }
     case K_INTEGER: case K_ENUMERATED: {
         INTEGER_t *st = sptr;
         if(!strcmp(x->kind, "padint") && st->buf && st->size > 0 && xf_take(x)) {
